@@ -103,6 +103,14 @@ def pivot():
     S.append(EnumSpec("Expr", [U("A", disc="1 << 3", disc_val=8), U("B"), U("C", disc="BASE_EXPR + 2", disc_val=12),
                                U("H", disabled=True), U("D")], derives=d, std_derives=std, repr="u8",
                       note="expression-valued discriminants"))
+    S.append(EnumSpec("ExprTy8", [U("Half", disc="!0 >> 1", disc_val=127), U("Next"), U("H", disabled=True), U("Q", disc="!0 / 4", disc_val=63), U("R")],
+                      derives=d, std_derives=std, repr="u8", note="expressions whose value depends on being typed at the repr type (u8): !0 >> 1, !0 / 4"))
+    S.append(EnumSpec("ExprTy16", [U("A", disc="!0 >> 4", disc_val=0x0fff), U("B"), U("C", disc="1 << 15", disc_val=32768), U("D")],
+                      derives=d, std_derives=std, repr="u16", note="u16: !0 >> 4, 1 << 15"))
+    S.append(EnumSpec("ExprTy64", [U("A", disc="1 << 31", disc_val=2**31), U("B"), U("C", disc="1 << 40", disc_val=2**40), U("H", disabled=True), U("D")],
+                      derives=d, std_derives=std, repr="u64", note="u64: 1 << 31 and 1 << 40 (overflow i32 arithmetic)"))
+    S.append(EnumSpec("ExprTyI64", [U("A", disc="1 << 31", disc_val=2**31), U("B"), U("C", disc="-(1 << 40)", disc_val=-2**40), U("D")],
+                      derives=d, std_derives=std, repr="i64", note="i64: 1 << 31, -(1 << 40)"))
     # 7. wide reprs with extreme values
     S.append(EnumSpec("W64", [U("A"), U("B", disc="0x8000_0000_0000_0000", disc_val=2**63), U("C"),
                               U("D", disc="u64::MAX", disc_val=2**64 - 1)], derives=d, std_derives=std, repr="u64",
